@@ -420,6 +420,8 @@ def cascade_case(ctx, scen, i):
 def scen_C01(ctx):
     ctx.rule = ('seeded random histories (put/get/delete/includes_key/len/is_empty) over small key universes, all five key types, '
                 'tables of 1..4096 buckets, value lengths biased to slot-class edges and to the 4 KiB / 16 KiB / 128 KiB boundaries; '
+                'cascade = chains of slot-exact keys with both files pushed past an offset-width boundary; exhaustive_lenL = every call '
+                'sequence of length L (quick 3, thorough 4) over a 12-letter alphabet on a one-bucket table; '
                 'a case is non-trivial when it has >= 4 ops; distinct = distinct op files (sha1)')
     n_hist = ctx.scale(160, 1500)
 
@@ -434,6 +436,29 @@ def scen_C01(ctx):
         pair(ctx, 'hist', i, lines, stats=g.stats)
     parallel(one, range(n_hist))
     parallel(lambda i: cascade_case(ctx, 'C01', i), range(ctx.scale(12, 60)))
+    # bounded-exhaustive enumeration: EVERY call sequence of length L over a small alphabet (2 colliding keys, one of them
+    # filling its key slot exactly; value lengths 0 / 14 (fills a 16-byte slot) / 15 (next class) / 1100 (large slot); put, delete,
+    # get) on a one-bucket table, each sequence on its own map, followed by reads of both keys, len and a traversal
+    import itertools
+    ka, kb = b'a', b'B' * 11
+    alpha = ['put %%s %s %s' % (k.hex(), v) for k in (ka, kb) for v in ('-', 'z14x3', 'z15x5', 'z1100x7')] + \
+            ['del %%s %s' % k.hex() for k in (ka, kb)] + ['get %%s %s' % k.hex() for k in (ka, kb)]
+    L = ctx.scale(3, 4)
+    seqs = list(itertools.product(range(len(alpha)), repeat=L))
+    per = 150
+    batches = [seqs[j:j + per] for j in range(0, len(seqs), per)]
+
+    def exh(a):
+        bi, batch = a
+        lines = ['db d0 db']
+        for si, sq in enumerate(batch):
+            m = 'm%d' % si
+            lines.append('map %s d0 bytes s%d B1' % (m, si))
+            lines += [alpha[x] % m for x in sq]
+            lines += ['get %s %s' % (m, ka.hex()), 'get %s %s' % (m, kb.hex()), 'len %s' % m, 'iter %s iter' % m]
+        lines += ['closeall', 'snap db']
+        pair(ctx, 'exhaustive_len%d' % L, bi, lines, op_timeout=60)
+    parallel(exh, list(enumerate(batches)))
     if not ctx.quick:
         # long histories (1e5 calls), API level against the ideal map only (values small)
         def long(i):
